@@ -431,12 +431,21 @@ async fn apply(st: &Store, op: &Op) -> Result<(), ()> {
     match op {
         Op::Put(k, id, t, p) => {
             let doc = Document::new(*id, ts(*t), payload_bytes(p));
-            on!(st, s => s.put(KS_NAMES[*k], doc).await)
+            // `put_with_ctx(.., None)` is the entry point the keyspace actor uses; odd ids take it
+            if *id % 2 == 1 {
+                on!(st, s => s.put_with_ctx(KS_NAMES[*k], doc, None).await)
+            } else {
+                on!(st, s => s.put(KS_NAMES[*k], doc).await)
+            }
         },
         Op::MultiPut(k, docs) => {
             let docs: Vec<Document> =
                 docs.iter().map(|(id, t, p)| Document::new(*id, ts(*t), payload_bytes(p))).collect();
-            on!(st, s => s.multi_put(KS_NAMES[*k], docs.into_iter()).await)
+            if docs.len() % 2 == 1 {
+                on!(st, s => s.multi_put_with_ctx(KS_NAMES[*k], docs.into_iter(), None).await)
+            } else {
+                on!(st, s => s.multi_put(KS_NAMES[*k], docs.into_iter()).await)
+            }
         },
         Op::Tomb(k, id, t) => on!(st, s => s.mark_as_tombstone(KS_NAMES[*k], *id, ts(*t)).await),
         Op::MultiTomb(k, docs) => {
